@@ -11,7 +11,7 @@ RULE = ('(A) every single-rule FGG over Shapes(3,2,2) and Shapes(2,3,2) x termin
         'multi-nonterminal grammars (factors shared between rules, factors unreachable from the start, unproductive '
         'nonterminals, several rules per nonterminal, dead rules before live ones); (R) nine recursive templates with all '
         'weightings of 3 entries over {0,1/4,1/2} (subcritical), methods fixed-point / newton / linear; Real and Log '
-        'semirings, all weights requiring grad, cotangents = every one-hot on the start tensor and all-ones; oracle = '
+        'semirings, all weights requiring grad, cotangents = every one-hot on the start tensor, all-ones and one with negative coefficients (-1,+2,-1,...); oracle = '
         'exact forward-mode derivative of the definition on the IR (rationals; 40-digit Kleene iteration with dual '
         'numbers for recursive grammars); Log: w dZ/dw / Z for finite log-weights. Patterned (diagonal) weights are '
         'compared on physically backed entries. Non-trivial = some non-zero gradient entry.')
@@ -131,7 +131,7 @@ def judge(ir, w, sem, method, r, case, rec):
         # log Z = -inf somewhere: cotangents touching those entries are out of scope
         cots = [('onehot', ea) for ea in assts if float(Z[ea].v) != 0]
     else:
-        cots = [('onehot', ea) for ea in assts] + ([('ones', None)] if len(assts) > 1 else [])
+        cots = [('onehot', ea) for ea in assts] + ([('ones', None)] if len(assts) > 1 else []) + [('signed', None)]
     S = IR.semiring(sem, 'float64')
     opts = dict(method=method, semiring=S)
     if rec:
@@ -147,6 +147,8 @@ def judge(ir, w, sem, method, r, case, rec):
             z = fggs.sum_product(g, **opts).to_dense()
             if cot[0] == 'onehot':
                 f = z[cot[1]] if cot[1] else z
+            elif cot[0] == 'signed':      # a cotangent with negative coefficients: -1, +2, -1, +2, ...
+                f = sum(signed_coef(i) * (z[ea] if ea else z) for i, ea in enumerate(assts))
             else:
                 f = z.sum()
             if not f.requires_grad:
@@ -173,13 +175,14 @@ def judge(ir, w, sem, method, r, case, rec):
                     continue      # derivative w.r.t. an infinite log-weight: out of scope
                 for ea in ([cot[1]] if cot[0] == 'onehot' else assts):
                     d = Z[ea].d.get((name, idx), 0)
+                    c = signed_coef(assts.index(ea)) if cot[0] == 'signed' else 1.0
                     if sem == 'real':
-                        want += float(d)
+                        want += c * float(d)
                     else:
                         zv = float(Z[ea].v)
                         if zv == 0:
                             continue
-                        want += float(wv) * float(d) / zv
+                        want += c * float(wv) * float(d) / zv
                 if gr is None or gr[0] is None:
                     got = 0.0
                 else:
@@ -199,6 +202,10 @@ def judge(ir, w, sem, method, r, case, rec):
             r.bad('wrong-gradient', 'sum_product.SumProduct.backward', t2, '%s/%s cotangent %r: %s; rules=%r nl=%r w=%r' % (sem, method, cot, bad, ir['rules'], ir['nl'], w), case, key)
         else:
             r.ok(key, outcome=(sem, method, 'rec' if rec else 'nonrec'), nontrivial=nonzero)
+
+
+def signed_coef(i):
+    return -1.0 if i % 2 == 0 else 2.0
 
 
 def stalls_before_keys_settle(ir, w, val):
